@@ -12,6 +12,7 @@ import (
 	"vh/lib"
 	"vh/prng"
 	"vh/rec"
+	"vh/spec"
 )
 
 // ctrlRecipe is the i-th controller-originated message recipe of a property's case list.
@@ -98,19 +99,30 @@ func locusOf(root *rec.Rec, path string) string {
 				l := cur.List(name)
 				if idx < len(l) {
 					cur = l[idx]
-					out = append(out, name+"[]("+cur.K+")")
+					out = append(out, name+"[]("+elemName(cur)+")")
 					continue
 				}
 				cur = nil
 			} else if s := cur.Sub(name); s != nil {
 				cur = s
-				out = append(out, name+"("+cur.K+")")
+				out = append(out, name+"("+elemName(cur)+")")
 				continue
 			}
 		}
 		out = append(out, idxRe.ReplaceAllString(seg, "[]"))
 	}
 	return strings.Join(out, ".")
+}
+
+// elemName is the element kind, and for match fields the field's OVS name.
+func elemName(r *rec.Rec) string {
+	if r.K == "mf" {
+		if ref := spec.OXMByCode(r.U16("class"), r.U8("field")); ref != nil {
+			return "mf:" + ref.Name
+		}
+		return fmt.Sprintf("mf:%#x/%d", r.U16("class"), r.U8("field"))
+	}
+	return r.K
 }
 
 type built struct {
